@@ -419,6 +419,32 @@ class CursorFamily(Abstract):
     def iter_protocol(self, I):
         return 0, self.n, 1, (lambda i: FamCursor(self, i))
 
+    def getslice(self, I, lo, hi, st, node=None):
+        if st is not None:
+            raise OutsideSubset("stepped slice of a matcher list", node)
+        lo = to_z3(0 if lo is None else lo)
+        hi = self.n if hi is None else to_z3(hi)
+        # (the verified code slices with 0 <= lo <= n only; negative / clamped bounds are not modelled)
+        if not I.in_spec:
+            I.oblige("call-pre", "slice-bounds-in-range", z3.And(lo >= 0, lo <= self.n, hi >= lo, hi <= self.n))
+        return FamSlice(self, lo, hi)
+
+
+class FamSlice(Abstract):
+    """matchers[lo:hi] of a CursorFamily: the members are the family's own (aliases, as in Python)"""
+
+    def __init__(self, fam, lo, hi):
+        self.fam, self.lo, self.hi = fam, lo, hi
+
+    def havoc(self, I):
+        pass
+
+    def length(self, I):
+        return self.hi - self.lo
+
+    def iter_protocol(self, I):
+        return self.lo, self.hi, 1, (lambda i: FamCursor(self.fam, i))
+
 
 class FamCursor(Cursor):
     """Member idx of a CursorFamily: the Cursor interface over the family's functions; its position lives in the
